@@ -137,6 +137,20 @@ def missing_internals() -> List[str]:
     return sorted(f"{n} (used by {need[n]})" for n in need if n not in have)
 
 
+NO_PROOF_FALLBACK = {'locks'}
+
+
+def differs_from_pinned(name: str) -> bool:
+    idx = PINNED_GEN / 'index.json'
+    if not idx.exists():
+        return False
+    for fname in json.loads(idx.read_text()).get(name, []):
+        a, b = PINNED_GEN / fname, LEAN / 'BoboVerif' / 'Gen' / fname
+        if a.exists() and b.exists() and a.read_text() != b.read_text():
+            return True
+    return False
+
+
 def restore_pinned(name: str) -> bool:
     """
     Translator `name` could not regenerate its fragment from the current source: put back the fragment generated
@@ -446,6 +460,24 @@ def check_main(spec: PropSpec, tier: str, replay_path: Optional[str] = None) -> 
                 broken.append(m)
         ctx.tie_broken = broken + g_fallback
         ctx.lean = lean_build_and_audit(spec.prop, thorough=(tier == 'thorough'), extra_props=spec.extra_props)
+        if not ctx.lean.build_ok:
+            # A translator may ACCEPT a rewritten source and produce a fragment for which the tie lemmas (`gen_*_eq`) no
+            # longer go through — the same situation as a refusal, one step later: put the pinned fragment back and let D
+            # decide.  Not for fragments whose theorems are about the generated table itself and that no D run covers in
+            # full (`locks`: the lock-order, queue-wait and lockset tables).
+            differing = [n for n in spec.translators if n not in NO_PROOF_FALLBACK and n not in spec.g_required
+                         and not any(f'translate/{n}.py' in m for m in broken + g_fallback) and differs_from_pinned(n)]
+            if differing:
+                first = (ctx.lean.messages or ['?'])[0][:240]
+                for n in differing:
+                    restore_pinned(n)
+                again = lean_build_and_audit(spec.prop, thorough=(tier == 'thorough'), extra_props=spec.extra_props)
+                if again.build_ok:
+                    ctx.lean = again
+                    for n in differing:
+                        g_fallback.append(f"tie-broken: translate/{n}.py: the fragment regenerated from the source does not build with "
+                                          f"the tie lemmas stated for it ({first})")
+                    ctx.tie_broken = broken + g_fallback
     lean = ctx.lean
     obligations_broken = list(broken) + list(lean.messages)
 
